@@ -143,3 +143,12 @@ Example C08_reconnect_nonvacuous :
   sock (fst (run 1000 3 reconnect_ops)) = true /\ is_connected (fst (run 1000 3 reconnect_ops)) = true /\
   count_k is_txping (snd (run 1000 3 reconnect_ops)) = 2%nat.
 Proof. vm_compute. repeat split; reflexivity. Qed.
+
+(* ---- no PINGREQ is sent while one is outstanding: in every state, every step that transmits a PINGREQ
+   starts with _ping_t = 0 or reads the PINGRESP in the same loop() call.  (The implementation-side oracle of
+   clause 2 runs its deadline from the earliest unanswered PINGREQ; this is why that is sound - seed S-C08-6.) *)
+From PahoV Require Import Link.KeepaliveNoDoublePing.
+Theorem C08_no_ping_while_ping_outstanding : forall s o,
+  In TxPing (snd (step s o)) -> ping_t s = 0 \/ In (Rd InPingresp) (snd (step s o)).
+Proof. exact no_ping_while_ping_outstanding. Qed.
+Print Assumptions C08_no_ping_while_ping_outstanding.
